@@ -235,6 +235,15 @@ def r2(ctx):
     loops = [n for n in walk_function(sel.node) if isinstance(n, ast.For) and u(n.iter) == "%s.items()" % sparams[0]]
     ok = ok and len(loops) == 1 and [u(t) for t in loops[0].target.elts] == ["chromosome", "block_counts"] and any(isinstance(n, ast.Assign) and u(n.value) == "block_counts.most_common(1)[0]" and u(n.targets[0].elts[0]) == "block_name" for n in ast.walk(loops[0]))
     ctx.ob(pl.qual, "block-identity-includes-chromosome", ok, pl.loc(names[0]) if names else pl.loc(), "block sizes and block read names are both keyed by (chromosome, phase set); the largest block per chromosome is looked up under the same key" if ok else "the tables describing phase blocks do not all identify a block by (chromosome, phase set): blocks with the same id on different chromosomes are conflated")
+    # ... and the reads of every chromosome's largest block are collected: the lookup happens once per chromosome
+    if len(look) == 1 and len(loops) == 1:
+        inside_loop = any(x is look[0] for x in ast.walk(loops[0]))
+        srets = [n for n in walk_function(sel.node) if isinstance(n, ast.Return) and n.value is not None]
+        acc = u(srets[0].value) if len(srets) == 1 and isinstance(srets[0].value, ast.Name) else None
+        st_ = util.stmt_of(look[0])
+        feeds = acc is not None and ((isinstance(st_, ast.Assign) and u(st_.targets[0]) == acc and acc in u(st_.value)) or (isinstance(st_, ast.AugAssign) and u(st_.target) == acc and isinstance(st_.op, ast.BitOr)) or (isinstance(st_, ast.Expr) and isinstance(st_.value, ast.Call) and u(st_.value.func) in ("%s.update" % acc,)))
+        okl = True if (inside_loop and feeds) else (False if not inside_loop else None)
+        ctx.ob(sel.qual, "largest-block-of-every-chromosome-collected", okl, sel.loc(look[0]), "the reads of the largest block are added to the selection inside the chromosome loop" if okl else ("the block's reads are looked up after the chromosome loop: only the last chromosome's largest block is selected, reads of all other chromosomes are treated as untagged" if not inside_loop else "cannot see how the looked-up reads reach the returned selection"))
     rets = [n for n in walk_function(pl.node) if isinstance(n, ast.Return)]
     ok = len(rets) == 1 and isinstance(rets[0].value, ast.Tuple) and u(rets[0].value.elts[0]) == "readname_to_haplotype"
     ctx.ob(pl.qual, "returns-map-first", ok, pl.loc(rets[0]) if rets else pl.loc(), "the map is the first returned value" if ok else "process_haplotag_list_file does not return the map first")
@@ -319,12 +328,54 @@ def r4(ctx):
     ctx.ob(fi.qual, "one-count-per-output", okc, fi.loc(loops[0]), "each row prints lc[length] for every output's counter in order" if okc else "row counts are not (lc[length] for lc in length_counts)")
 
 
+def r5(ctx):
+    """Reading the first line of the haplotype list to inspect it must not swallow a data line: every readline() on the list
+    is followed by seek(0) on all paths to the function's exits, unless the line read is a header (starts with '#')."""
+    n_sites = 0
+    for q in (MOD + ".check_haplotag_list_information", MOD + ".process_haplotag_list_file"):
+        fi = ctx.func(q)
+        cfg = ctx.cfg(fi)
+        for c in ctx.prog.calls_in(fi.node):
+            if not (isinstance(c.func, ast.Attribute) and c.func.attr in ("readline", "__next__") or (u(c.func) == "next" and c.args)):
+                continue
+            recv = u(c.func.value) if isinstance(c.func, ast.Attribute) else u(c.args[0])
+            n_sites += 1
+            rn = cfg.node_containing(c)
+            seeks = set()
+            for n in cfg.g.nodes:
+                a = cfg.ast(n)
+                if a is not None and cfg.kind(n) in ("stmt",) and any(isinstance(x, ast.Call) and u(x.func) == "%s.seek" % recv and len(x.args) == 1 and u(x.args[0]) == "0" for x in ast.walk(a)):
+                    seeks.add(n)
+            # names holding the line just read
+            st_ = util.stmt_of(c)
+            held = {u(c)}
+            if isinstance(st_, ast.Assign) and len(st_.targets) == 1 and isinstance(st_.targets[0], ast.Name) and any(x is c for x in ast.walk(st_.value)):
+                held.add(st_.targets[0].id)
+            avoid_edges = set()
+            for n in cfg.g.nodes:
+                if cfg.kind(n) != "test":
+                    continue
+                t = cfg.ast(n)
+                if t is None:
+                    continue
+                for (txt, pol) in atoms(t, True):
+                    if any(txt in ("%s.startswith('#')" % h, "%s.lstrip().startswith('#')" % h) for h in held):
+                        # pol True: the true edge means "header"; the header line may be consumed
+                        for m in cfg.succ(n, "true" if pol else "false"):
+                            avoid_edges.add((n, m))
+            path = cfg.find_path(rn, cfg.exit, avoid_nodes=seeks, avoid_edges=avoid_edges, start_after=(rn in seeks))
+            ok = path is None
+            ctx.ob(fi.qual, "first-line-not-swallowed:%s" % recv, ok, fi.loc(c), "after %s.readline() the list is rewound with seek(0) on every path, except when the line is a '#' header" % recv if ok else "a line read from the haplotype list with readline() is not given back (no seek(0) on some path, and the line is not known to be a header): the first read of a header-less list is dropped from the name -> haplotype map", cfg.describe_path(path) if path else None)
+    ctx.require(n_sites >= 1, "no readline() on the haplotype list found")
+
+
 RULES = [
     ("C14.R1", "single pass: no mutation, documented skips only, no early exit", r1),
     ("C14.R2", "routing tables: map, writer order, H<i>->i, none->0, add-untagged", r2),
     ("C14.R3", "every write is paired with the histogram of its output", r3),
     ("C14.R4", "histogram rows: distinct sorted lengths, one count per output", r4),
+    ("C14.R5", "inspecting the first line of the list does not consume a data line", r5),
 ]
 # instance floors: about 60% of the instances confirmed by hand on the reference tree -- a rule that suddenly matches far fewer
 # sites fails the run (exit 2); a clean-up that merges two sites into one does not
-FLOORS = {"C14.R1": 5, "C14.R2": 8, "C14.R3": 1, "C14.R4": 1}
+FLOORS = {"C14.R1": 5, "C14.R2": 8, "C14.R3": 1, "C14.R4": 1, "C14.R5": 1}
